@@ -12,6 +12,7 @@ func init() {
 	props["C03"] = func(c *Collector, tier string, seed int64) {
 		runSched(c, "C03", tier, seed)
 		runC03Cancelled(c, tier, seed)
+		runC03Contexts(c, tier, seed)
 	}
 	props["C04"] = func(c *Collector, tier string, seed int64) {
 		runSched(c, "C04", tier, seed)
@@ -122,6 +123,9 @@ func schedCase(col *Collector, focus string, p *schedPlan, tag string) {
 	c := p.cfg
 	obs, rel, err := runSchedCase(p)
 	cs := Case{Tags: []string{tag, fmt.Sprintf("stages=%d", c.n)}}
+	if c.viaConfig {
+		cs.Tags = append(cs.Tags, "built-by-config-loader")
+	}
 	if err != nil {
 		cs.Replay = c.describe()
 		cs.Fail, cs.Sig = "graph could not be built: "+err.Error(), "sched-build"
@@ -238,6 +242,8 @@ func runSched(col *Collector, focus, tier string, seed int64) {
 	}
 	mk := func(n int, deps [][]int, kinds []byte) *schedCfg {
 		c := &schedCfg{n: n, deps: deps, order: rng.Perm(n), shared: n >= 2 && rng.Intn(5) == 0}
+		// a share of the graphs is built by the configuration loader from YAML (buildPipeline, pipeline links)
+		c.viaConfig = !c.shared && rng.Intn(4) == 0
 		applyKinds(c, kinds)
 		return c
 	}
@@ -306,6 +312,7 @@ func runSched(col *Collector, focus, tier string, seed int64) {
 				s := rng.Intn(n)
 				m := 2 + rng.Intn(3)
 				c.nested[s] = mk(m, randDag(m), randKinds(m))
+				c.nested[s].shared = c.nested[s].shared && !c.viaConfig
 				c.cond[s] = 'n'
 			}
 		}
@@ -378,6 +385,41 @@ func runC03Cancelled(col *Collector, tier string, seed int64) {
 		case "":
 		default:
 			col.Note("other-monitor C12: %s", sig)
+		}
+		col.Add(cs)
+	})
+}
+
+// pipelines on the REAL runner whose stages use execution contexts (hooks that fail at every position, several up
+// commands, tasks with conditions and hooks of their own): the run must return and no command may run twice
+func runC03Contexts(col *Collector, tier string, seed int64) {
+	rng := rand.New(rand.NewSource(seed + 303))
+	var scs []hookScenario
+	for _, s := range genHookScenarios(tier, rng) {
+		if s.via == "sched" {
+			scs = append(scs, s)
+		}
+	}
+	parallel(len(scs), 16, func(i int) {
+		s := scs[i]
+		o := runHookScenario(s)
+		cs := Case{Replay: s.line(), Tags: []string{"real-runner-contexts", fmt.Sprintf("tasks=%d", len(s.tasks))}, NonTrivial: len(s.tasks) > 1}
+		cs.Impl = fmt.Sprintf("returned=%v", !strings.HasPrefix(o.crashed, "HANG"))
+		switch {
+		case strings.HasPrefix(o.crashed, "HANG"):
+			cs.Fail, cs.Sig = "pipeline run did not return: "+o.crashed, "c03-no-return"
+		case o.crashed != "":
+			cs.Fail, cs.Sig = "pipeline run crashed: "+o.crashed, "c03-crash"
+		default:
+			n := map[string]int{}
+			for _, tok := range o.trace {
+				n[tok]++
+			}
+			for i := range s.tasks {
+				if c := n[fmt.Sprintf("t%d.cmd", i)]; c > 1 {
+					cs.Fail, cs.Sig = fmt.Sprintf("stage t%d ran its command %d times", i, c), "c03-twice"
+				}
+			}
 		}
 		col.Add(cs)
 	})
